@@ -33,6 +33,7 @@ pub struct NodeSuite {
     queue: Vec<(SocketAddr, SocketAddr, Vec<u8>)>,
     wire: Vec<(SocketAddr, SocketAddr, Vec<u8>)>,
     now: Time,
+    args: HashMap<u16, Vec<String>>,
 }
 
 fn addr_of(port: u16) -> SocketAddr {
@@ -107,7 +108,7 @@ impl NodeSuite {
     pub fn new() -> Self {
         MockTimeSource::set_time(0);
         MockSocket::set_nat(false);
-        NodeSuite { keys: vec![], nodes: Default::default(), queue: vec![], wire: vec![], now: 0 }
+        NodeSuite { keys: vec![], nodes: Default::default(), queue: vec![], wire: vec![], now: 0, args: HashMap::new() }
     }
 
     fn state(&self, port: u16) -> String {
@@ -186,7 +187,15 @@ impl NodeSuite {
                 }
                 Some(self.keys.iter().map(|k| hex(&k.0)).collect::<Vec<_>>().join(","))
             }
+            "nrestart" => {
+                // the process behind this address is restarted: a fresh node with the same configuration
+                let port: u16 = t.get(1)?.parse().ok()?;
+                let args = self.args.get(&port)?.clone();
+                let v: Vec<&str> = args.iter().map(|s| s.as_str()).collect();
+                self.step(&v)
+            }
             "nnode" => {
+                self.args.insert(t.get(1)?.parse().ok()?, t.iter().map(|s| s.to_string()).collect());
                 // nnode <port> mode=.. dev=tun|tap pt=.. ka=..|- st=.. claims=..|- key=<i> trust=<i,..|-> algos=<plain|id:bits,..> nat=0|1
                 let port: u16 = t.get(1)?.parse().ok()?;
                 let mut f = HashMap::new();
@@ -356,10 +365,38 @@ impl NodeSuite {
                 with_node!(&mut sn.node, n, { n.v_add_fake_peer(a, pt) });
                 Some("ok".to_string())
             }
+            "nfake-clear" => {
+                let i: u16 = t.get(1)?.parse().ok()?;
+                let sn = self.nodes.get_mut(&i)?;
+                with_node!(&mut sn.node, n, { n.v_clear_fake_peers() });
+                Some("ok".to_string())
+            }
+            "ndropfrom" => {
+                let i: u16 = t.get(1)?.parse().ok()?;
+                let a = addr_of(i);
+                match t.get(2) {
+                    Some(d) => {
+                        let b = addr_of(d.parse().ok()?);
+                        self.queue.retain(|(s, dd, _)| !(*s == a && *dd == b));
+                    }
+                    None => self.queue.retain(|(s, _, _)| *s != a),
+                }
+                Some("ok".to_string())
+            }
+            "nreplay-last" => {
+                if self.wire.is_empty() {
+                    return Some("none-on-wire".to_string());
+                }
+                let w = format!("w{}", self.wire.len() - 1);
+                let mut v: Vec<&str> = vec!["nreplay", &w];
+                v.extend_from_slice(&t[1..]);
+                self.step(&v)
+            }
             "ndump" => {
                 let i: u16 = t.get(1)?.parse().ok()?;
                 Some(self.state(i))
             }
+            "nexpect" => Some("ok".to_string()),
             "nqueue" => Some(format!("{}", self.queue.iter().map(|(s, d, b)| format!("{}>{}:{}", addr_str(s), addr_str(d), b.len())).collect::<Vec<_>>().join(","))),
             _ => None,
         }
